@@ -18,7 +18,10 @@ def sh(cmd, timeout=600, cwd=None, env=None, inp=None):
                            stdout=subprocess.PIPE, stderr=subprocess.STDOUT, timeout=timeout)
         return p.returncode, p.stdout
     except subprocess.TimeoutExpired as e:
-        return 124, (e.stdout or '') + '\nTIMEOUT'
+        so = e.stdout or ''
+        if isinstance(so, bytes):
+            so = so.decode('utf-8', 'replace')
+        return 124, so + '\nTIMEOUT'
 
 
 class Lock:
